@@ -19,25 +19,48 @@ from mir2smt import Untranslatable
 _cache = {}
 
 
+MIRWS_TOML = """[package]
+name = "quinn-verif-mir"
+version = "0.0.0"
+edition = "2021"
+publish = false
+
+[workspace]
+
+[dependencies]
+quinn-proto = { path = "%s/quinn-proto", default-features = false }
+
+[patch.crates-io]
+tracing = { path = "%s/kani/shims/tracing" }
+"""
+
+
 def dump_mir(logdir):
-    """(Re)generates the MIR dump of quinn-proto from the current working tree."""
+    """(Re)generates the MIR dump of quinn-proto from the current working tree, built the same way
+    as for Kani: no default features, `tracing` replaced by the no-op shim (logging has an empty body)."""
     os.makedirs(MIRDIR, exist_ok=True)
     out = os.path.join(MIRDIR, "quinn_proto.mir")
+    ws = os.path.join(BUILD, "mirws")
+    os.makedirs(os.path.join(ws, "src"), exist_ok=True)
+    toml = MIRWS_TOML % (REPO, VERIF)
+    if not os.path.exists(os.path.join(ws, "Cargo.toml")) or open(os.path.join(ws, "Cargo.toml")).read() != toml:
+        open(os.path.join(ws, "Cargo.toml"), "w").write(toml)
+    open(os.path.join(ws, "src", "lib.rs"), "w").write("")
+    shutil.copyfile(os.path.join(REPO, "Cargo.lock"), os.path.join(ws, "Cargo.lock"))
     tdir = os.path.join(BUILD, "mir-target")
-    # force rustc to run again without touching files in /repo
-    for d in ("debug/.fingerprint",):
-        p = os.path.join(tdir, d)
-        if os.path.isdir(p):
-            for e in os.listdir(p):
-                if e.startswith("quinn-proto-"):
-                    shutil.rmtree(os.path.join(p, e), ignore_errors=True)
+    # force rustc to run again for quinn-proto without touching files in /repo
+    p = os.path.join(tdir, "debug", ".fingerprint")
+    if os.path.isdir(p):
+        for e in os.listdir(p):
+            if e.startswith("quinn-proto-"):
+                shutil.rmtree(os.path.join(p, e), ignore_errors=True)
     env = dict(os.environ, CARGO_TARGET_DIR=tdir, CARGO_NET_OFFLINE="true")
     env.pop("RUSTFLAGS", None)
     t0 = time.time()
     with open(out, "w") as fo, open(os.path.join(logdir, "mir_dump.log"), "w") as fe:
-        rc = subprocess.call(["cargo", "+nightly", "rustc", "--offline", "--lib", "--no-default-features", "--",
+        rc = subprocess.call(["cargo", "+nightly", "rustc", "--offline", "-p", "quinn-proto", "--lib", "--",
                               "-Zunpretty=mir", "-Zmir-opt-level=2", "-Zinline-mir=yes", "-C", "overflow-checks=on", "-C", "debug-assertions=off"],
-                             cwd=os.path.join(REPO, "quinn-proto"), stdout=fo, stderr=fe, env=env)
+                             cwd=ws, stdout=fo, stderr=fe, env=env)
     if rc != 0 or os.path.getsize(out) < 100000:
         raise RuntimeError("MIR dump failed (rc=%d), see %s" % (rc, os.path.join(logdir, "mir_dump.log")))
     return out, time.time() - t0
@@ -141,12 +164,16 @@ def check_query(q, funcs, enums, tier, logdir):
         ctx = Ctx(ex, None)
         if q.get("modifies"):
             ex.modifies = q["modifies"](ctx)
+        ex.stop_at = list(q.get("stop_at", ()))
         fn, paths = ex.run(q["func"])
         ctx.fn = fn
         pre = q["pre"](ctx)
         items = []
         for i, p in enumerate(paths):
             pv = PathView(ctx, p)
+            if q.get("assume") and p.outcome != "untranslatable":
+                # contracts of opaque callees, stated over the actual arguments of this path
+                p.state.conds.append(q["assume"](ctx, pv))
             if p.outcome == "unreachable":
                 # rustc emits `unreachable` only where the type's validity invariant excludes the
                 # branch (e.g. discriminant of an Option outside {0,1}); such paths are infeasible
@@ -158,6 +185,8 @@ def check_query(q, funcs, enums, tier, logdir):
                 if allowed and re.search(allowed, p.detail or ""):
                     continue
                 items.append((i, p, None))
+            elif p.outcome == "stop" and not q.get("check_stop"):
+                continue
             else:
                 items.append((i, p, q["post"](ctx, pv)))
         decls = "".join("(declare-const %s %s)\n" % (n, mir2smt.smt_sort(s)) for n, s in sorted(ex.decls.items()))
